@@ -13,22 +13,23 @@
 (*                  counterexample (Add, Latest with a later clock, Add in between).         *)
 EXTENDS TSOracle
 
-CONSTANTS Times,      \* observation / clock times explored (interior)
+CONSTANTS SizesC, NBC, \* level sizes (units) and buckets per level
+          Times,      \* observation / clock times explored (interior)
           MaxOps,     \* length of the explored histories
           Repaired
 
 ZeroT == 0 - 1000000          \* Go's zero time.Time: long before everything
 
 VARIABLES st, nops
-vars == <<st, nops, obs, maxT, seen, clean>>
+vars == <<st, nops, obs, maxT, seen, clean, sizes, nb>>
 
 Ring == 0..(NB - 1)
 
 Init ==
-    /\ OInit
+    /\ OInitWith(SizesC, NBC)
     /\ nops = 0
-    /\ st = [end |-> [L \in Levels |-> ZeroT], bk |-> [L \in Levels |-> [i \in Ring |-> 0]],
-             oldest |-> [L \in Levels |-> 0], newest |-> [L \in Levels |-> NB - 1],
+    /\ st = [end |-> [L \in 1..Len(SizesC) |-> ZeroT], bk |-> [L \in 1..Len(SizesC) |-> [i \in 0..(NBC - 1) |-> 0]],
+             oldest |-> [L \in 1..Len(SizesC) |-> 0], newest |-> [L \in 1..Len(SizesC) |-> NBC - 1],
              pending |-> 0, ptime |-> ZeroT, dirty |-> FALSE, total |-> 0, lastAdd |-> ZeroT]
 
 ---------------------------------------------------------------------------
